@@ -1,4 +1,5 @@
 import FxVerif.Model.C18
+import FxVerif.Proofs.C18P
 /-!
 # C18 — a tolerated failed sub-step leaves none of its own partial effects
 
@@ -252,7 +253,267 @@ theorem ibc_recv_failure_outcome :
   rw [runOuterOnly_eq]
   congr 1
 
+/-! ## the same four boundaries over the REGENERATED STRUCTURED PROGRAMS
+
+`Gen.C18.attestationProg`, `executeClaimProg`, `govProg`, `recvPacketProg` are regenerated from the Go AST on every run
+(`go/extract/c18prog.go`) with the spine of every boundary inlined; `Model.C18P.exec` executes them for EVERY behaviour
+of the leaf calls (`Env`: which call returns an error / panics at which loop iteration, the VM error kind of every
+EVM response, every uninterpreted condition, every loop length).  The state is the list of write tokens on the outer
+context; `denote` turns it into a transformer of any state type for any writes of the leaves.
+
+Each theorem says: if a call made through the cache variable failed (`k ∈ failed`: returned an error, panicked, or
+produced a VM error of ANY kind; at ANY loop iteration), the boundary ends normally and the outer context carries
+exactly the designated tokens.  They break when
+ (i)   a write is moved from the cache to the outer context or in front of the cache,
+ (ii)  the commit is guarded by a condition that holds on some failure (another error variable — shadowing —, a test
+       that only recognises a revert, a recover() that assigns a shadowed variable),
+ (iii) the cache is opened per message instead of once per proposal,
+ (iv)  the cache is skipped on some path (per claim type). -/
+
+section Prog
+open FxVerif.Model.C18P FxVerif.Proofs.C18P
+
+/-- **observed event, handler fails** (any claim type — the claim type is not consulted before the cache is opened):
+the vote loop is left (`break`) with exactly the observed mark (`SetLastObservedEventNonce`,
+`SetLastObservedBlockHeight`, `SetAttestation`) and the handler-independent clean-up on the outer context -/
+theorem attestation_failure_outcome_prog (env : Env) (it : Nat) (hp : NoPanic env)
+    (hfail : env.ok "k.AttestationHandler" it = false) :
+    (run env attestationProg it).1 = .brk ∧ (run env attestationProg it).2.outer = attDesignated it :=
+  att_fail env it hp ((att_ghost env it hp).2 hfail)
+
+/-- the ghost flag of the attestation boundary is exactly "the handler returned an error" -/
+theorem attestation_failed_iff (env : Env) (it : Nat) (hp : NoPanic env) :
+    (run env attestationProg it).2.failed ≠ [] ↔ env.ok "k.AttestationHandler" it = false :=
+  att_ghost env it hp
+
+/-- … and when the handler succeeds its writes ARE committed, between the mark and the clean-up -/
+theorem attestation_success_outcome_prog (env : Env) (it : Nat) (hp : NoPanic env)
+    (hok : env.ok "k.AttestationHandler" it = true) :
+    (run env attestationProg it).1 = .brk ∧
+    (run env attestationProg it).2.outer = attPre it ++ [⟨"k.AttestationHandler", it, []⟩] ++ attPost it :=
+  att_ok env it hp hok
+
+/-- a panic of the handler is NOT tolerated: it propagates (the enclosing transaction reverts as a whole) -/
+theorem attestation_panic_propagates (env : Env) (it : Nat)
+    (hp : ∀ n i, n ≠ "k.AttestationHandler" → env.panics n i = false)
+    (h : env.panics "k.AttestationHandler" it = true) : (run env attestationProg it).1 = .panic :=
+  att_panic env it hp h
+
+/-- the same for ANY state type, ANY writes of every leaf and ANY failure position `n` inside the handler's writes -/
+theorem attestation_failure_outcome_denote {S : Type} (eff : Eff S) (cond : String → Nat → Bool) (iters : Nat → Nat)
+    (it n : Nat) (s : S) (hp : ∀ name i, (eff name i).panics = false)
+    (hfail : (eff "k.AttestationHandler" it).failAt = some n) :
+    denote eff (run (eff.env cond iters) attestationProg it).2.outer s = denote eff (attDesignated it) s := by
+  have h := attestation_failure_outcome_prog (eff.env cond iters) it (fun name i => hp name i)
+    (by simp [Eff.env, hfail])
+  rw [h.2]
+
+/-- **inbound bridge call, contract call fails** — a failing conversion of the first / a middle / the last coin, a
+failing `CallEVM`, a VM error of any kind (revert, out of gas, invalid opcode, insufficient balance, …): `ExecuteClaim`
+returns nil and the outer context carries exactly: claim consumed, bridge account, the credits, (coins moved to the
+refund address,) the refund record — provided the two refund calls themselves succeed -/
+theorem bridge_call_in_failure_outcome_prog (env : Env) (hp : NoPanic env)
+    (hs : env.ok "k.bankKeeper.SendCoins" 0 = true) (ha : env.ok "k.AddOutgoingBridgeCall" 0 = true)
+    (hfail : 1 ∈ (run env executeClaimProg).2.failed) :
+    (run env executeClaimProg).1 = .ret true ∧ (run env executeClaimProg).2.outer = bciDesignated env :=
+  bci_fail env hp hs ha hfail
+
+theorem bridge_call_in_failure_outcome_denote {S : Type} (eff : Eff S) (cond : String → Nat → Bool) (iters : Nat → Nat)
+    (s : S) (hp : ∀ name i, (eff name i).panics = false)
+    (hs : (eff "k.bankKeeper.SendCoins" 0).failAt = none) (ha : (eff "k.AddOutgoingBridgeCall" 0).failAt = none)
+    (hfail : 1 ∈ (run (eff.env cond iters) executeClaimProg).2.failed) :
+    denote eff (run (eff.env cond iters) executeClaimProg).2.outer s = denote eff (bciDesignated (eff.env cond iters)) s := by
+  have h := bridge_call_in_failure_outcome_prog (eff.env cond iters) (fun name i => hp name i)
+    (by simp [Eff.env, hs]) (by simp [Eff.env, ha]) hfail
+  rw [h.2]
+
+/-- **passed proposal, a message fails** — at any index, by a returned error or by a panic (recovered by
+`safeExecuteHandler` into the NAMED result): the clause ends with `Status = Failed`, `SetProposal`, and the separately
+tolerated hook; no handler write reaches the outer context -/
+theorem proposal_failure_outcome_prog (env : Env) (hp : ∀ n i, n ≠ "handler" → env.panics n i = false)
+    (hset : env.ok "keeper.SetProposal" 0 = true) (hfail : 1 ∈ (run env govProg).2.failed) :
+    (run env govProg).1 = .ret true ∧ (run env govProg).2.outer = govDesignated env :=
+  gov_fail env hp hset hfail
+
+theorem proposal_failure_outcome_denote {S : Type} (eff : Eff S) (cond : String → Nat → Bool) (iters : Nat → Nat)
+    (s : S) (hp : ∀ name i, name ≠ "handler" → (eff name i).panics = false)
+    (hset : (eff "keeper.SetProposal" 0).failAt = none)
+    (hfail : 1 ∈ (run (eff.env cond iters) govProg).2.failed) :
+    denote eff (run (eff.env cond iters) govProg).2.outer s = denote eff (govDesignated (eff.env cond iters)) s := by
+  have h := proposal_failure_outcome_prog (eff.env cond iters) (fun name i hn => hp name i hn)
+    (by simp [Eff.env, hset]) hfail
+  rw [h.2]
+
+/-- **IBC packet, transfer application or follow-up fails** — error acknowledgement of the transfer application, failing
+`IBCCoinToEvm`, failing `CallEVM`, VM error of any kind: core `RecvPacket` returns nil and the outer context carries
+exactly core's own bookkeeping and `WriteAcknowledgement` called with an UNSUCCESSFUL acknowledgement (synchronous
+acknowledgement; `WriteAcknowledgement` itself succeeds) -/
+theorem ibc_recv_failure_outcome_prog (env : Env) (hp : NoPanic env)
+    (hsync : env.cond "RecvPacket: ack != nil" 0 = true) (hsync' : env.cond "RecvPacket: ack == nil" 0 = false)
+    (hw : env.ok "k.ChannelKeeper.WriteAcknowledgement" 0 = true)
+    (hfail : 2 ∈ (run env recvPacketProg).2.failed) :
+    (run env recvPacketProg).1 = .ret true ∧ (run env recvPacketProg).2.outer = ibcDesignated :=
+  ibc_fail env hp hsync hsync' hw hfail
+
+theorem ibc_recv_failure_outcome_denote {S : Type} (eff : Eff S) (cond : String → Nat → Bool) (iters : Nat → Nat)
+    (s : S) (hp : ∀ name i, (eff name i).panics = false)
+    (hsync : cond "RecvPacket: ack != nil" 0 = true) (hsync' : cond "RecvPacket: ack == nil" 0 = false)
+    (hw : (eff "k.ChannelKeeper.WriteAcknowledgement" 0).failAt = none)
+    (hfail : 2 ∈ (run (eff.env cond iters) recvPacketProg).2.failed) :
+    denote eff (run (eff.env cond iters) recvPacketProg).2.outer s = denote eff ibcDesignated s := by
+  have h := ibc_recv_failure_outcome_prog (eff.env cond iters) (fun name i => hp name i)
+    (by simpa [Eff.env] using hsync) (by simpa [Eff.env] using hsync') (by simp [Eff.env, hw]) hfail
+  rw [h.2]
+
+/-! ### complete outcome of every boundary: either nothing failed and everything is committed, or exactly the designated outcome -/
+
+/-- **passed proposal, every path**: the messages cannot be unpacked (status failed, nothing executed); or ALL `n`
+handlers succeed (status passed, the `n` handler writes committed in order, proposal stored, hook); or SOME message
+fails — whichever index, by error or panic — and the outcome is status failed + proposal stored + hook, nothing else -/
+theorem proposal_outcome_total (env : Env) (hp : ∀ n i, n ≠ "handler" → env.panics n i = false)
+    (hset : env.ok "keeper.SetProposal" 0 = true) : GovOutcome env (run env govProg) :=
+  gov_total env hp hset
+
+/-- the quantifier of the property, literally: the failure provoked at ANY message index `k < n` (first, middle, last),
+by a returned error or by a panic, whatever the other messages do -/
+theorem proposal_failure_at_any_index (env : Env) (hp : ∀ n i, n ≠ "handler" → env.panics n i = false)
+    (hset : env.ok "keeper.SetProposal" 0 = true) (hmsgs : env.ok "proposal.GetMsgs" 0 = true)
+    (k : Nat) (hk : k < env.iters 1) (hfail : env.ok "handler" k = false ∨ env.panics "handler" k = true) :
+    (run env govProg).1 = .ret true ∧ (run env govProg).2.outer = govDesignated env := by
+  have h := gov_total env hp hset
+  have hno : ¬ GovAllOk env (env.iters 1) := by
+    intro hall
+    have := hall k hk
+    rcases hfail with hf | hf <;> simp [hf] at this
+  obtain ⟨h1, h2⟩ := h
+  refine ⟨h1, ?_⟩
+  rcases h2 with ⟨hm, _⟩ | ⟨_, hall, _⟩ | ⟨_, _, ho, _⟩
+  · simp [hmsgs] at hm
+  · exact absurd hall hno
+  · exact ho
+
+/-- … and when every handler succeeds, every handler write IS committed (the cache is not simply dropped) -/
+theorem proposal_success_outcome (env : Env) (hp : ∀ n i, n ≠ "handler" → env.panics n i = false)
+    (hset : env.ok "keeper.SetProposal" 0 = true) (hmsgs : env.ok "proposal.GetMsgs" 0 = true)
+    (hall : GovAllOk env (env.iters 1)) :
+    (run env govProg).1 = .ret true ∧ (run env govProg).2.outer = govSuccess env := by
+  obtain ⟨h1, h2⟩ := gov_total env hp hset
+  refine ⟨h1, ?_⟩
+  rcases h2 with ⟨hm, _⟩ | ⟨_, _, ho, _⟩ | ⟨_, hno, _⟩
+  · simp [hmsgs] at hm
+  · exact ho
+  · exact absurd hall hno
+
+/-- **inbound bridge call, every path** (the claim is a pending bridge call, the sender is not a module account, the
+refund calls succeed): a credit on the outer context fails (the native action returns the error and is reverted as a
+whole); or the cached region succeeds (all conversions, the call) and everything is committed; or the cached region
+fails — a conversion at ANY index, packing the callback, `CallEVM`, a VM error of ANY kind — and the outcome is exactly
+the designated one -/
+theorem bridge_call_in_outcome_total (env : Env) (hp : NoPanic env)
+    (hfound : env.cond "ExecuteClaim: found" 0 = true)
+    (ht1 : env.cond "ExecuteClaim: externalClaim.(type) is *types.MsgSendToFxClaim" 0 = false)
+    (ht2 : env.cond "ExecuteClaim: externalClaim.(type) is *types.MsgBridgeCallClaim" 0 = true)
+    (hmod : env.ok "k.ak.GetAccount" 0 = true ∨ env.cond "Keeper.BridgeCallHandler: ok" 0 = false)
+    (hs : env.ok "k.bankKeeper.SendCoins" 0 = true) (ha : env.ok "k.AddOutgoingBridgeCall" 0 = true) :
+    BciOutcome env (run env executeClaimProg) :=
+  bci_total env hp hfound ht1 ht2 hmod hs ha
+
+/-- the disabled pair at ANY token index `k` (first, middle, last) -/
+theorem bridge_call_in_conversion_failure_at_any_index (env : Env) (hp : NoPanic env)
+    (hfound : env.cond "ExecuteClaim: found" 0 = true)
+    (ht1 : env.cond "ExecuteClaim: externalClaim.(type) is *types.MsgSendToFxClaim" 0 = false)
+    (ht2 : env.cond "ExecuteClaim: externalClaim.(type) is *types.MsgBridgeCallClaim" 0 = true)
+    (hmod : env.ok "k.ak.GetAccount" 0 = true ∨ env.cond "Keeper.BridgeCallHandler: ok" 0 = false)
+    (hs : env.ok "k.bankKeeper.SendCoins" 0 = true) (ha : env.ok "k.AddOutgoingBridgeCall" 0 = true)
+    (hcred : BciAll1 env (env.iters 1))
+    (k : Nat) (hk : k < env.iters 2) (hfail : env.ok "k.BaseCoinToEvm" k = false) :
+    (run env executeClaimProg).1 = .ret true ∧ (run env executeClaimProg).2.outer = bciDesignated env := by
+  have hcf : bciCachedFails env := Or.inl (fun hall => by have := hall k hk; simp [hfail] at this)
+  rcases bci_total env hp hfound ht1 ht2 hmod hs ha with ⟨hno, _⟩ | ⟨_, h1, h2⟩
+  · exact absurd hcred hno
+  · refine ⟨h1, ?_⟩
+    rcases h2 with ⟨hn, _⟩ | ⟨_, ho⟩
+    · exact absurd hcf hn
+    · exact ho
+
+/-- a VM error of EVERY kind (revert, out of gas, invalid opcode, insufficient balance, any other) and a `CallEVM` error -/
+theorem bridge_call_in_vm_error_of_any_kind (env : Env) (hp : NoPanic env)
+    (hfound : env.cond "ExecuteClaim: found" 0 = true)
+    (ht1 : env.cond "ExecuteClaim: externalClaim.(type) is *types.MsgSendToFxClaim" 0 = false)
+    (ht2 : env.cond "ExecuteClaim: externalClaim.(type) is *types.MsgBridgeCallClaim" 0 = true)
+    (hmod : env.ok "k.ak.GetAccount" 0 = true ∨ env.cond "Keeper.BridgeCallHandler: ok" 0 = false)
+    (hs : env.ok "k.bankKeeper.SendCoins" 0 = true) (ha : env.ok "k.AddOutgoingBridgeCall" 0 = true)
+    (hcred : BciAll1 env (env.iters 1))
+    (hc : env.cond "Keeper.BridgeCallEvm: k.evmKeeper.IsContract(ctx, to)" 0 = true)
+    (hfail : env.ok "k.evmKeeper.CallEVM" 0 = false ∨ env.evm "k.evmKeeper.CallEVM" 0 ≠ .ok) :
+    (run env executeClaimProg).1 = .ret true ∧ (run env executeClaimProg).2.outer = bciDesignated env := by
+  have hcf : bciCachedFails env := Or.inr ⟨hc, Or.inr hfail⟩
+  rcases bci_total env hp hfound ht1 ht2 hmod hs ha with ⟨hno, _⟩ | ⟨_, h1, h2⟩
+  · exact absurd hcred hno
+  · refine ⟨h1, ?_⟩
+    rcases h2 with ⟨hn, _⟩ | ⟨_, ho⟩
+    · exact absurd hcf hn
+    · exact ho
+
+/-- **IBC receive, every path** (core reaches the callback, synchronous acknowledgement): the transfer application or
+the follow-up fails at any of their points → bookkeeping + UNSUCCESSFUL acknowledgement only; otherwise everything is
+committed and the acknowledgement written is a SUCCESSFUL one -/
+theorem ibc_recv_outcome_total (env : Env) (hp : NoPanic env) (hr : ibcReached env)
+    (hsync : env.cond "RecvPacket: ack != nil" 0 = true) (hsync' : env.cond "RecvPacket: ack == nil" 0 = false)
+    (hw : env.ok "k.ChannelKeeper.WriteAcknowledgement" 0 = true) :
+    IbcOutcome env (run env recvPacketProg) :=
+  ibc_total env hp hr hsync hsync' hw
+
+/-- the memo call fails inside the EVM with ANY kind of VM error, or `CallEVM` returns an error -/
+theorem ibc_recv_vm_error_of_any_kind (env : Env) (hp : NoPanic env) (hr : ibcReached env)
+    (hsync : env.cond "RecvPacket: ack != nil" 0 = true) (hsync' : env.cond "RecvPacket: ack == nil" 0 = false)
+    (hw : env.ok "k.ChannelKeeper.WriteAcknowledgement" 0 = true)
+    (hmemo : env.cond "Keeper.OnRecvPacket: len(data.Memo) > 0" 0 = true) (hjson : env.ok "k.cdc.UnmarshalInterfaceJSON" 0 = true)
+    (hfail : env.ok "k.evmKeeper.CallEVM" 0 = false ∨ env.evm "k.evmKeeper.CallEVM" 0 ≠ .ok) :
+    (run env recvPacketProg).1 = .ret true ∧ (run env recvPacketProg).2.outer = ibcDesignated := by
+  have hf : ibcAppFails env ∨ ibcHookFails env :=
+    Or.inr (Or.inr (Or.inr (Or.inr ⟨hmemo, hjson, Or.inr (Or.inr hfail)⟩)))
+  obtain ⟨h1, h2⟩ := ibc_total env hp hr hsync hsync' hw
+  refine ⟨h1, ?_⟩
+  rcases h2 with ⟨_, ho⟩ | ⟨hn, _⟩
+  · exact ho
+  · exact absurd hf hn
+
+/-- the transfer stack of the app is built with the fx middleware (the binding `cbs.OnRecvPacket ↦ IBCMiddleware.OnRecvPacket`) -/
+theorem transfer_stack_uses_middleware : transferStackUsesMiddleware = true := by decide
+
+end Prog
+
 /-! ## non-vacuity -/
+
+section ProgExamples
+open FxVerif.Model.C18P FxVerif.Proofs.C18P
+
+-- success paths commit everything
+example : (run envOk executeClaimProg).2.failed = [] ∧ (run envOk executeClaimProg).2.outer = bciSuccess envOk := by decide
+example : (run envOk govProg).2.outer = govSuccess envOk := by decide
+example : (run envOk recvPacketProg).2.outer = ibcSuccess envOk := by decide
+-- every failure kind of the property's quantifier sets the ghost flag, i.e. the hypotheses of the theorems are satisfiable
+example : 1 ∈ (run (failAt envOk "k.BaseCoinToEvm" 0) executeClaimProg).2.failed := by decide
+example : 1 ∈ (run (failAt envOk "k.BaseCoinToEvm" 1) executeClaimProg).2.failed := by decide
+example : 1 ∈ (run (failAt envOk "k.BaseCoinToEvm" 2) executeClaimProg).2.failed := by decide
+example : 1 ∈ (run (vmErr envOk "k.evmKeeper.CallEVM" .revert) executeClaimProg).2.failed := by decide
+example : 1 ∈ (run (vmErr envOk "k.evmKeeper.CallEVM" .outOfGas) executeClaimProg).2.failed := by decide
+example : 1 ∈ (run (vmErr envOk "k.evmKeeper.CallEVM" .invalidOpcode) executeClaimProg).2.failed := by decide
+example : 1 ∈ (run (vmErr envOk "k.evmKeeper.CallEVM" .insufficientBalance) executeClaimProg).2.failed := by decide
+example : 1 ∈ (run (failAt envOk "k.evmKeeper.CallEVM" 0) executeClaimProg).2.failed := by decide
+example : (run (vmErr envOk "k.evmKeeper.CallEVM" .outOfGas) executeClaimProg).2.outer = bciDesignated envOk := by decide
+example : 1 ∈ (run (failAt envOk "handler" 0) govProg).2.failed := by decide
+example : 1 ∈ (run (failAt envOk "handler" 1) govProg).2.failed := by decide
+example : 1 ∈ (run (panicAt envOk "handler" 2) govProg).2.failed := by decide
+example : (run (panicAt envOk "handler" 1) govProg).2.outer = govDesignated envOk := by decide
+example : 2 ∈ (run (vmErr envOk "k.evmKeeper.CallEVM" .revert) recvPacketProg).2.failed := by decide
+example : 2 ∈ (run (vmErr envOk "k.evmKeeper.CallEVM" .outOfGas) recvPacketProg).2.failed := by decide
+example : 2 ∈ (run (failAt envOk "k.crossChainKeeper.IBCCoinToEvm" 0) recvPacketProg).2.failed := by decide
+example : 2 ∈ (run (failAt envOk "im.IBCModule.OnRecvPacket" 0) recvPacketProg).2.failed := by decide
+example : (run (vmErr envOk "k.evmKeeper.CallEVM" .invalidOpcode) recvPacketProg).2.outer = ibcDesignated := by decide
+example : (run (failAt envOk "k.AttestationHandler" 0) attestationProg).2.failed = [1] := by decide
+end ProgExamples
 
 example : (SubStep.mk [fun (n : Nat) => n + 1, fun n => n * 2] (some 1)).ok = false := rfl
 example : (SubStep.mk [fun (n : Nat) => n + 1, fun n => n * 2] (some 1)).after 5 = 6 := rfl
